@@ -17,6 +17,7 @@
 #include "stir/recon_buildblock/DataSymmetriesForBins.h"
 #include "stir/recon_buildblock/SymmetryOperation.h"
 #include <typeinfo>
+#include <iostream>
 #include "stir/ProjDataInfoCylindrical.h"
 #include "stir/ProjDataInfoCylindricalNoArcCorr.h"
 #include <algorithm>
@@ -47,10 +48,11 @@ const double SCREEN = 1e-3; // voxel units, from the property text / DESIGN "Tie
 
 // calibrated tolerance (see props.d/C03.py level_note and the final report): relative to the row maximum
 double
-row_tolerance()
+row_tolerance(double kappa)
 {
   static const double tol = std::getenv("C03_TOL") ? std::atof(std::getenv("C03_TOL")) : 2e-3;
-  return tol;
+  static const double per_kappa = std::getenv("C03_TOL_KAPPA") ? std::atof(std::getenv("C03_TOL_KAPPA")) : 4e-5;
+  return std::max(tol, per_kappa * kappa);
 }
 
 inline bool
@@ -80,8 +82,14 @@ struct Ref
 
 // ---- tie screen: mirror of ray_trace_one_lor's end points, in double ---------------------------
 // returns true when the bin has to be skipped
+//
+// Conditioning: the position at which a ray leaves a voxel through a plane perpendicular to direction d is
+// (boundary - start_d)/|difference_d|; a rounding error e in start_d (float, ~1e-6 grid units) moves it by e/|difference_d|
+// of the chord, i.e. changes an element by ~ e * max_d|difference_d| / |difference_d| relative to the row maximum.
+// kappa = max_d |difference_d| / min_{d not parallel} |difference_d| (grid units) is returned so that the comparison
+// tolerance can follow the conditioning of nearly-parallel rays (small tan(theta) with thick planes, small view offsets).
 bool
-screen_one_ray(const Ref& R, double s, double t, double cphi, double sphi, double costheta, double tantheta, double offset_in_z, double fovrad)
+screen_one_ray(const Ref& R, double s, double t, double cphi, double sphi, double costheta, double tantheta, double offset_in_z, double fovrad, double& kappa)
 {
   const double vx = R.voxel_size.x(), vy = R.voxel_size.y(), vz = R.voxel_size.z();
   const double tol_mm = SCREEN * std::min(vx, vy);
@@ -128,6 +136,18 @@ screen_one_ray(const Ref& R, double s, double t, double cphi, double sphi, doubl
     n2 += (p1[d] - p0[d]) * (p1[d] - p0[d]);
   if (std::sqrt(n2) < 1e-2)
     return true; // (nearly) coinciding end points: the ray tracer returns nothing below 1e-5
+  {
+    double dmax = 0, dmin = 1e30;
+    for (int d = 0; d < 3; ++d)
+      {
+        const double ad = std::fabs(p1[d] - p0[d]);
+        dmax = std::max(dmax, ad);
+        if (ad > 1e-4)
+          dmin = std::min(dmin, ad);
+      }
+    if (dmin < 1e29)
+      kappa = std::max(kappa, dmax / dmin);
+  }
   for (int d = 0; d < 3; ++d)
     {
       const double ad = std::fabs(p1[d] - p0[d]);
@@ -145,7 +165,7 @@ screen_one_ray(const Ref& R, double s, double t, double cphi, double sphi, doubl
 }
 
 bool
-screen_one_bin(const Ref& R, const Bin& bin)
+screen_one_bin(const Ref& R, const Bin& bin, double& kappa)
 {
   const ProjDataInfo& pdi = *R.pdi;
   double s = pdi.get_s(bin);
@@ -184,19 +204,20 @@ screen_one_bin(const Ref& R, const Bin& bin)
     }
   const double fovrad = std::min(std::min(R.imax.x(), -R.imin.x()) * vx, std::min(R.imax.y(), -R.imin.y()) * vy);
   if (R.lors == 1)
-    return screen_one_ray(R, s, t, cphi, sphi, costheta, tantheta, offset_in_z, fovrad);
+    return screen_one_ray(R, s, t, cphi, sphi, costheta, tantheta, offset_in_z, fovrad, kappa);
   const double s_inc = (!R.adb ? 1 : 2) * double(pdi.get_sampling_in_s(bin)) / R.lors;
   double cur = s - s_inc * (R.lors - 1) / 2.;
   for (int k = 1; k <= R.lors; ++k, cur += s_inc)
-    if (screen_one_ray(R, cur, t, cphi, sphi, costheta, tantheta, offset_in_z, fovrad))
+    if (screen_one_ray(R, cur, t, cphi, sphi, costheta, tantheta, offset_in_z, fovrad, kappa))
       return true;
   return false;
 }
 
 //! the bin and its images under the full symmetry group (whether or not the symmetry is enabled: screening more is always sound)
 bool
-screen_bin(const Ref& R, const Bin& bin)
+screen_bin(const Ref& R, const Bin& bin, double& kappa)
 {
+  kappa = 1;
   const ProjDataInfo& p = *R.pdi;
   const int nv = p.get_num_views();
   std::vector<int> views = { bin.view_num(), nv - bin.view_num() };
@@ -227,7 +248,7 @@ screen_bin(const Ref& R, const Bin& bin)
                 continue;
               if (R.adb && (tang < p.get_min_tangential_pos_num() || tang > p.get_max_tangential_pos_num()))
                 continue;
-              if (screen_one_bin(R, Bin(seg, v, bin.axial_pos_num(), tang, bin.timing_pos_num())))
+              if (screen_one_bin(R, Bin(seg, v, bin.axial_pos_num(), tang, bin.timing_pos_num()), kappa))
                 return true;
             }
         }
@@ -412,7 +433,8 @@ Run::get(const Bin& bin, const char* how)
   const Ref& R = ref();
   ++n_gets;
   stats().count("gets");
-  if (screen_bin(R, bin))
+  double kappa = 1;
+  if (screen_bin(R, bin, kappa))
     {
       ++n_screened;
       stats().count("gets screened (tie)");
@@ -522,8 +544,19 @@ Run::get(const Bin& bin, const char* how)
     {
       const double rel = worst / mx;
       stats().maxi(geo[g].pdi->is_tof_data() ? "max |row - direct row| / row max (TOF)" : "max |row - direct row| / row max (non-TOF)", rel);
-      VF_CHECK(rel <= row_tolerance(), "row differs from the directly computed row: voxel (z,y,x)=(", std::get<0>(worst_at), ",", std::get<1>(worst_at), ",", std::get<2>(worst_at),
-               ") has ", wa, ", direct ", wb, "; row max ", mx, " (rel ", rel, ", tolerance ", row_tolerance(), "); sizes ", a.size(), " / ", b.size(), "; ", ctx);
+      if (kappa < 30)
+        stats().maxi("max |row - direct row| / row max, well-conditioned rays (kappa<30)", rel);
+      else
+        stats().maxi("max |row - direct row| / row max / kappa, kappa>=30", rel / kappa);
+      stats().maxi("max kappa", kappa);
+      const double tol = row_tolerance(kappa);
+      stats().maxi("max |row - direct row| / row max / tolerance", rel / tol);
+      if (std::getenv("C03_DEBUG") && rel > std::atof(std::getenv("C03_DEBUG")))
+        std::cerr << "C03_DEBUG rel " << rel << " at (" << std::get<0>(worst_at) << "," << std::get<1>(worst_at) << "," << std::get<2>(worst_at) << ") got " << wa << " direct " << wb
+                  << " max " << mx << " sizes " << a.size() << "/" << b.size() << " " << ctx << " phi " << geo[g].pdi->get_phi(bin) << " s " << geo[g].pdi->get_s(bin) << " tanth "
+                  << geo[g].pdi->get_tantheta(bin) << " vox " << R.voxel_size.x() << "," << R.voxel_size.y() << "," << R.voxel_size.z() << "\n";
+      VF_CHECK(rel <= tol, "row differs from the directly computed row: voxel (z,y,x)=(", std::get<0>(worst_at), ",", std::get<1>(worst_at), ",", std::get<2>(worst_at),
+               ") has ", wa, ", direct ", wb, "; row max ", mx, " (rel ", rel, ", tolerance ", tol, ", kappa ", kappa, "); sizes ", a.size(), " / ", b.size(), "; ", ctx);
     }
   return Result::pass();
 }
